@@ -884,6 +884,16 @@ class Interp:
             if f.id in ('list', 'tuple', 'iter') and len(call.args) == 1:
                 return self._map(call.args[0], p, lambda v, q: v if v[0] in ('layers', 'enum')
                                  else OPAQUE)
+            if f.id in ('set', 'frozenset') and len(call.args) == 1:
+                out = []
+                for v, q in self.eval(call.args[0], p):
+                    if v[0] == 'enum':
+                        # membership in a hashed container goes through __hash__, not only __eq__
+                        q = q.event('snapshot-hashed', f.id)
+                        out.append((v, q))
+                    else:
+                        out.append((v if v[0] == '!raise' else OPAQUE, q))
+                return out
         # ---- evaluate the callee
         out = []
         if isinstance(f, ast.Attribute):
